@@ -309,6 +309,7 @@ type c09Outcome struct {
 	res    *simrt.Result
 	fail   *wk.Failure
 	ops    int
+	done   map[string]int // per operation kind: operations that completed without an error or an escaped panic
 	detail string
 }
 
@@ -355,6 +356,14 @@ func c09Run(cs *c09One, replay bool) c09Outcome {
 		}
 		dataMaps, ijMaps := mk()
 		refData, refIJ := mk()
+		structData = structData[:0:0]
+		for _, x := range cs.Bundle.Data {
+			structData = append(structData, toPoolData(x))
+		}
+		if len(structData) == 0 {
+			invalid = "bundle has no data sets"
+			return
+		}
 		mkCat := func(c *sut.Compiled) soymsg.Bundle {
 			if cs.CatKind == faults.KindPO {
 				if b, ok := faults.POBundle(c.Msgs); ok {
@@ -429,10 +438,14 @@ func c09Run(cs *c09One, replay bool) c09Outcome {
 		out.fail = mkf("panic", res.TaskPanics[0].Name, res.TaskPanics[0].Value)
 		return out
 	}
+	out.done = map[string]int{}
 	for ti, t := range cs.Tasks {
 		for oi, op := range t {
 			nops++
 			got, want := results[ti][oi], refs[opKey(op)]
+			if got.esc == "" && !got.err && len(got.out) > 0 {
+				out.done[op.Op]++
+			}
 			switch {
 			case got.esc != "" && want.esc == "":
 				out.fail = mkf("panic", "concurrent "+op.Op, fmt.Sprintf("task %d op %d (%s %s): panic escaped only in the concurrent run: %s", ti, oi, op.Op, op.Template, got.esc))
@@ -527,6 +540,9 @@ func c09Generate(c *wk.Ctx, run, i int) *c09One {
 	for k := 0; k < 2; k++ {
 		hot = append(hot, gc.Entries[r.Intn(len(gc.Entries))])
 	}
+	// swarm: each run has a theme that concentrates the operation mix, so that operations of one kind
+	// overlap in time (two struct conversions, two JS generations, two compilations, ...)
+	theme := r.Intn(7)
 	for t := 0; t < g; t++ {
 		var ops []c09Op
 		for k, n := 0, 1+r.Intn(4); k < n; k++ {
@@ -534,7 +550,20 @@ func c09Generate(c *wk.Ctx, run, i int) *c09One {
 			if r.Intn(3) == 0 {
 				e = gc.Entries[r.Intn(len(gc.Entries))]
 			}
-			switch x := r.Intn(100); {
+			x := r.Intn(100)
+			if r.Intn(10) < 7 {
+				switch theme {
+				case 1:
+					x = 65 // render-struct
+				case 2:
+					x = 70 // js
+				case 3:
+					x = 86 + r.Intn(14) // compile / parse
+				case 4:
+					x = 55 // render-shared
+				}
+			}
+			switch {
 			case x < 50:
 				ops = append(ops, c09Op{Op: "render", Template: e.Template, Data: e.Data, IJ: e.IJ, Cat: useCat && r.Intn(4) != 0})
 			case x < 62:
@@ -660,6 +689,9 @@ func C09(c *wk.Ctx) {
 			}
 			if cs.CatKind == faults.KindPO {
 				u.Counters["runs_with_pomsg_bundle"]++
+			}
+			for k, n := range o.done {
+				u.Counters["completed_"+k] += int64(n)
 			}
 			for _, t := range cs.Tasks {
 				for _, op := range t {
